@@ -79,7 +79,7 @@ Accept(A, M, ev) ==
        [] ev.op = "LoadOrCompute" -> On(A, "view", ev.rv = r.rv /\ ev.ok = r.ok) /\ On(A, "fn", ev.n = r.n)
        [] ev.op = "Compute" -> /\ On(A, "view", ev.rv = r.rv /\ ev.ok = r.ok /\ ev.fo = vw.v /\ ev.fl = vw.ok)
                                /\ On(A, "fn", ev.n = 1)
-       [] ev.op \in {"Store", "Delete", "Clear"} -> TRUE
+       [] ev.op \in {"Store", "Delete", "Clear", "Scribble"} -> TRUE
        [] ev.op = "Range" ->
             On(A, "vis", /\ DistinctKeys(ev.vis)
                          /\ PairsOf(ev.vis) \subseteq AllPairs(M)
